@@ -201,7 +201,29 @@ func genConfig(t *rapid.T, o cfgOpts) emuConfig {
 	c.ULIface = drawPrintableWord(t, "ul_iface")
 	c.UeNumber = int64(rapid.IntRange(0, 5).Draw(t, "ue_number"))
 	c.PlainIPs = rapid.Bool().Draw(t, "plain_ips")
+	if rapid.IntRange(0, 5).Draw(t, "same_ports") == 3 {
+		// gNB and AMF on different hosts, both on the same SCTP port (38412 on both sides is the usual deployment)
+		c.StgNgapPort = c.AmfNgapPort
+	}
+	c.Syntax = drawSyntax(t)
 	return c
+}
+
+// drawSyntax: how the configuration file is written down (see fileSyntax); half of the files are written exactly
+// like the shipped one.
+func drawSyntax(t *rapid.T) (s fileSyntax) {
+	if rapid.Bool().Draw(t, "syntax_plain") {
+		return s
+	}
+	s.NoFinalNewline = rapid.Bool().Draw(t, "no_final_newline")
+	s.CRLF = rapid.IntRange(0, 3).Draw(t, "crlf") == 1
+	s.Comments = rapid.Bool().Draw(t, "comments")
+	s.DocStart = rapid.IntRange(0, 3).Draw(t, "doc_start") == 1
+	s.Indent = rapid.SampledFrom([]int{0, 0, 1, 4, 8}).Draw(t, "indent")
+	if rapid.Bool().Draw(t, "key_order") {
+		s.Order = rapid.Permutation([]int{0, 1, 2, 3, 4, 5, 6, 7, 8, 9, 10, 11, 12, 13, 14, 15, 16, 17, 18, 19, 20, 21, 22, 23}).Draw(t, "key_order_perm")
+	}
+	return s
 }
 
 func drawPrintableWord(t *rapid.T, label string) string {
@@ -291,6 +313,9 @@ func genUEChoice(t *rapid.T, k int, taken map[uint64]bool) refamf.UEChoice {
 	}
 	if rapid.IntRange(0, 35).Draw(t, l+"late_cuc") == 23 {
 		u.CUCDelayMs = rapid.SampledFrom([]int{600, 600, 1100}).Draw(t, l+"cuc_delay_ms")
+	}
+	if rapid.IntRange(0, 23).Draw(t, l+"slow_smf") == 13 {
+		u.SetupDelayMs = rapid.SampledFrom([]int{250, 250, 700}).Draw(t, l+"setup_delay_ms")
 	}
 	u.UEIP = drawIPv4(t, l+"ueip")
 	u.UPFIP = drawIPv4(t, l+"upfip")
@@ -394,6 +419,9 @@ func scenarioClasses(sc refamf.Scenario) []string {
 		}
 		if u.CUCDelayMs > 0 {
 			cl = append(cl, "configuration-update-command-sent-late")
+		}
+		if u.SetupDelayMs > 0 {
+			cl = append(cl, "session-setup-request-sent-late(other-UEs-answered-first)")
 		}
 		if len(u.EncPrio) > 0 {
 			cl = append(cl, fmt.Sprintf("amf-prefers-nea%d-nia%d", u.EncPrio[0], u.IntPrio[0]))
